@@ -279,17 +279,18 @@ fn do_request(dbh: &Arc<LocustDB>, req: &Sx) -> Seen {
     }
 }
 
-/// panics of background threads that die on an already poisoned ingestion lock (the flush thread's
-/// periodic wake-up) are consequences of earlier damage, not lost pool workers
-fn is_background_poison(p: &str) -> bool {
-    p.starts_with("src/scheduler/inner_locustdb.rs") && (p.contains("PoisonError") || p.contains("RecvError"))
-}
-
-fn emit(tag: &str, round: usize, what: &str, seen: &Seen, panics: &[String], ms: u128) {
-    let panics: Vec<String> = panics.iter().filter(|p| !is_background_poison(p)).cloned().collect();
+fn emit(tag: &str, round: usize, what: &str, seen: &Seen, panics: &[(&'static str, String)], ms: u128) {
+    // pool-thread panics are lost workers; everything else (the caller's own panic, flush jobs, the
+    // flush thread or a background thread dying on a poisoned lock) is reported through `seen`
+    let pool: Vec<&String> = panics.iter().filter(|p| p.0 == "pool").map(|p| &p.1).collect();
     let detail = match seen {
         Seen::Panic(site, msg) => format!("{}: {}", site, msg),
-        _ => panics.first().cloned().unwrap_or_default(),
+        _ => pool
+            .first()
+            .map(|s| s.to_string())
+            .or_else(|| panics.iter().find(|p| !p.1.contains("PoisonError")).map(|p| p.1.clone()))
+            .or_else(|| panics.first().map(|p| p.1.clone()))
+            .unwrap_or_default(),
     };
     println!(
         "{}",
@@ -299,7 +300,7 @@ fn emit(tag: &str, round: usize, what: &str, seen: &Seen, panics: &[String], ms:
             Sx::a(what),
             seen.sx(),
             Sx::bytes(canon::skeleton(&detail).as_bytes()),
-            Sx::int(panics.len()),
+            Sx::int(pool.len()),
             Sx::int(ms),
         ])
     );
@@ -348,7 +349,7 @@ pub fn child_main(spec: &str) {
         let seen: Vec<Seen> = seen_ms.iter().map(|x| x.0.clone()).collect();
         // give stragglers (pool threads still unwinding) a moment before reading the recorder
         std::thread::sleep(Duration::from_millis(20));
-        let panics = db::take_panics();
+        let panics = db::take_panic_records();
         for (k, s) in seen.iter().enumerate() {
             emit("req", ri, &format!("{}", k), s, &panics, seen_ms[k].1);
         }
@@ -369,7 +370,7 @@ pub fn child_main(spec: &str) {
             let s = f(&dbh);
             let ms = t0.elapsed().as_millis();
             std::thread::sleep(Duration::from_millis(5));
-            let p = db::take_panics();
+            let p = db::take_panic_records();
             emit("canary", ri, what, &s, &p, ms);
             if s == Seen::Hang {
                 wedged = true;
@@ -717,8 +718,8 @@ impl Suite for Canary {
             if rl.len() != reqs.len() {
                 break;
             }
-            let caller_panics = rl.iter().filter(|l| l.seen == "panic").count();
-            let mut pool_panics = rl.first().map_or(0, |l| l.npanics).saturating_sub(caller_panics);
+            // the child counts pool-thread panics only (role read off the backtrace in the panic hook)
+            let mut pool_panics = rl.first().map_or(0, |l| l.npanics);
             let mut mr = vec![];
             for (l, rq) in rl.iter().zip(&reqs) {
                 let mut kind = req_kind(rq);
